@@ -325,7 +325,10 @@ class MFile:
 
     def read(self, *a):
         data = self.w.files[self.p]
-        return data if self.binary else data.decode("utf-8")
+        if self.binary:
+            return data
+        # text mode: universal newlines
+        return data.decode("utf-8").replace("\r\n", "\n").replace("\r", "\n")
 
     def __iter__(self):
         data = self.read()
